@@ -175,6 +175,24 @@ CLAIMS = {
         'escape is read as U+FFFD (as the code does). No axioms.',
    technique='Coq soundness proof of a language model against an inductive grammar + token-exhaustive correspondence + reference-parser oracle',
    ref='section 9, C17'),
+ 'C01': dict(
+   category='proof',
+   text='Coq theorems saying what the text-level checks of the checker MEAN (Model/RuleSem.v, tied to Check() by correspondence): min/max '
+        'compare the exact decimal values the example and the bound denote, for every spelling (trailing zeros, -0, 20-digit integers, long '
+        'fractions), strictly when exclusive (through C13: nscan/ncmp vs value_of/dcmp); precision bounds the number of significant fraction '
+        'digits; minLength/maxLength count the characters of the decoded string; enum = some entry denotes the same string or is the same '
+        'literal; const = equal to the example of the type the rule belongs to; a node accepts null when nullable, otherwise requires its '
+        'type (unless enum) and every rule; `or` and references accept when the example type is among the alternatives and SOME alternative '
+        '(rule-sets and named types, followed transitively) accepts; arrays respect minItems/maxItems; a project is accepted exactly when the '
+        'root example and the example of every registered type pass. Tie: verdict class (accepted / rejected for a value reason) on a '
+        '22x22 boundary grid x min/max x exclusive, precision, strings incl. escapes/non-ASCII/astral, enum lists, every value x every '
+        'type, nullable/const/any, item counts, and random projects of 0-4 user types with rules inside or, inside types and types '
+        'referenced from or and other types; independent exact-rational python oracle.',
+   note='Trusted: Coq kernel; model tied by correspondence on the verdict class; text printer and oracle; harness. Not modelled: regex and '
+        'the built-in string formats; rule sets the compiler refuses as ill-formed are outside the statement (counted in the evidence). '
+        'Partial: the flattening of alternatives is proved sound (every alternative used is reachable), not complete. No axioms.',
+   technique='Coq proofs (meaning of each validator over decimal values and decoded strings, any-alternative semantics) + correspondence + oracle',
+   ref='section 9, C01'),
 }
 
 def main():
